@@ -272,7 +272,11 @@ double _vnacal_new_solve_calc_pvalue(vnacal_new_solve_state_t *vnssp,
      * If the result is small, we can reject the null hypothesis that
      * the data are consistent with the model.
      */
-    assert(!isnan(chisq));
-    assert(chisq >= 0.0);
+    if (isnan(chisq)) {		/* solution is not finite: reject */
+	return 0.0;
+    }
+    if (chisq < 0.0) {		/* rounding in sumsq - n * mean^2 */
+	chisq = 0.0;
+    }
     return chisq_pvalue(df, chisq);
 }
